@@ -1,7 +1,8 @@
 // C10: lookup queries compared with a brute-force search over the stored definitions (snapshot), under the
-// contract documented in TopologyKernel.hh.  Argument tuples are FREE symbolic values (the lookups only read).
-// Oracle loops over entities run to the (concrete) entity counts; loops over the valence of a SYMBOLIC face/cell have
-// constant bounds + guards (HARNESS_GUIDE rule 3).
+// contract documented in TopologyKernel.hh.  The handle that selects the container a lookup iterates ("centre") is
+// enumerated over its whole range by a concrete loop; every other argument is a FREE symbolic value (see check_lookups).
+// All oracle loops run over concrete candidates (entity counts / valences of concrete entities); only the compared
+// argument values and the returned handle are symbolic.
 #pragma once
 #include "mesh_common.h"
 
@@ -62,7 +63,7 @@ static inline std::vector<VH> c10_vs(const int *vs, int n) { std::vector<VH> v; 
       if ((start) >= 0) v_assert(rv_[0] == (start), "C10 " NAME ": the list starts at the requested vertex"); } } while (0)
 
 // ---- result checks --------------------------------------------------------------------------------------------------
-// r = returned handle index (possibly symbolic).  CAND enumerates all candidate handles x (concrete loop), PRED(x) is the
+// r = returned handle index (possibly symbolic).  x enumerates all candidate handles 0..N-1 (concrete loop), PRED (over x) is the
 // brute-force predicate "x is live and satisfies the request" -> soundness: r valid => r is one of the satisfying
 // candidates; completeness: r valid <=> some candidate satisfies; else exactly the invalid handle (-1).
 #define C10_RESULT(r, N, x, PRED, NAME) do { bool ex_ = false, sound_ = false; \
